@@ -19,7 +19,15 @@ type Sched struct {
 	Node int
 	Tx   vt.Tx
 	To   []int // tx recipients
-	done bool
+	// event-triggered faults ("a fault at a particular point"): instead of At, the cut starts right
+	// before TrigNode's TrigCount-th timeout ("before-timeout") or right after its TrigCount-th
+	// broadcast ("after-broadcast"), lasts Dur, and optionally lets messages already in flight arrive.
+	Trig         string
+	TrigNode     int
+	TrigCount    int
+	Dur          time.Duration
+	KeepInFlight bool
+	done         bool
 }
 
 type TimedOpts struct {
@@ -110,7 +118,7 @@ func RunTimed(w *World, o TimedOpts) *Timed {
 			t.Done = true
 			break
 		}
-		if t.Events >= o.MaxEvents {
+		if t.Events >= t.O.MaxEvents {
 			t.HitLimit = "events"
 			break
 		}
@@ -118,7 +126,7 @@ func RunTimed(w *World, o TimedOpts) *Timed {
 			t.HitLimit = "idle"
 			break
 		}
-		if w.Clock.Sub(w.Cfg.Epoch) > o.Horizon {
+		if w.Clock.Sub(w.Cfg.Epoch) > t.O.Horizon {
 			t.HitLimit = "horizon"
 			break
 		}
@@ -144,7 +152,54 @@ func (t *Timed) goal() bool {
 	return true
 }
 
+// trigger starts event-triggered cuts whose condition is met.
+func (t *Timed) trigger(kind string, n *Node, count int) {
+	w := t.W
+	for i := range t.O.Plan {
+		s := &t.O.Plan[i]
+		if s.done || s.Trig != kind || s.TrigNode != n.ID || s.TrigCount != count {
+			continue
+		}
+		s.done = true
+		w.Cut = map[int]bool{}
+		for _, id := range s.Set {
+			w.Cut[id] = true
+		}
+		if s.KeepInFlight {
+			for _, m := range w.Flight {
+				m.Pre = true
+			}
+		} else {
+			kept := w.Flight[:0]
+			for _, m := range w.Flight {
+				if w.linked(m.From, m.To) {
+					kept = append(kept, m)
+				}
+			}
+			w.Flight = kept
+		}
+		w.Stat("cut")
+		w.Stat("triggered_cut")
+		w.act("cut %v (%s of node %d #%d, keepInFlight=%v) for %s", s.Set, kind, n.ID, count, s.KeepInFlight, s.Dur)
+		now := w.Clock.Sub(w.Cfg.Epoch)
+		t.O.Plan = append(t.O.Plan, Sched{At: now + s.Dur, Kind: "heal"})
+		if now+s.Dur > t.LastFault {
+			t.LastFault = now + s.Dur
+		}
+		t.horizonSet = false
+		if t.O.HealBound {
+			t.O.Horizon = 1 << 62
+		}
+	}
+}
+
 func (t *Timed) afterCall(n *Node) {
+	if bc := n.Broadcasts(); bc != n.bcSeen {
+		for c := n.bcSeen + 1; c <= bc; c++ {
+			t.trigger("after-broadcast", n, c)
+		}
+		n.bcSeen = bc
+	}
 	if n.NeedInit && !n.Crashed {
 		if _, ok := t.resetAt[n]; !ok {
 			lag := time.Duration(0)
@@ -165,11 +220,14 @@ func (t *Timed) maybeSetHorizon() {
 		return
 	}
 	for _, s := range t.O.Plan {
-		if s.Kind != "tx" && !s.done {
+		if s.Kind != "tx" && !s.done && s.Trig == "" {
 			return
 		}
 	}
 	w := t.W
+	if len(w.Cut) > 0 {
+		return
+	}
 	vmax, nval := 0, 1
 	for _, n := range w.Nodes {
 		if n != nil && !n.Crashed && n.D.Validators != nil {
@@ -216,7 +274,7 @@ func (t *Timed) step() bool {
 		}
 	}
 	for i := range t.O.Plan {
-		if !t.O.Plan[i].done {
+		if !t.O.Plan[i].done && t.O.Plan[i].Trig == "" {
 			upd(w.Cfg.Epoch.Add(t.O.Plan[i].At))
 		}
 	}
@@ -229,7 +287,7 @@ func (t *Timed) step() bool {
 	// everything due now
 	var due []tEvent
 	for i := range t.O.Plan {
-		if !t.O.Plan[i].done && !w.Cfg.Epoch.Add(t.O.Plan[i].At).After(w.Clock) {
+		if !t.O.Plan[i].done && t.O.Plan[i].Trig == "" && !w.Cfg.Epoch.Add(t.O.Plan[i].At).After(w.Clock) {
 			due = append(due, tEvent{kind: "sched", i: i})
 		}
 	}
@@ -276,7 +334,7 @@ func (t *Timed) step() bool {
 		if n != nil && !n.Crashed && (m.P.Ht > n.D.BlockIndex || (m.P.Ht == n.D.BlockIndex && m.P.V > n.D.ViewNumber)) {
 			w.Stat("early_delivery")
 		}
-		if !w.linked(m.From, m.To) {
+		if !w.linked(m.From, m.To) && !m.Pre {
 			w.removeFlight(e.i)
 			w.Stat("lost_by_cut")
 			return true
@@ -287,6 +345,8 @@ func (t *Timed) step() bool {
 		}
 	case "timer":
 		w.Stat("timeout")
+		e.n.Timeouts++
+		t.trigger("before-timeout", e.n, e.n.Timeouts)
 		w.FireTimer(e.n)
 		t.afterCall(e.n)
 	case "reset":
